@@ -14,6 +14,8 @@ EXPLANATION = (
     "performs a blocking send on a per-stream or datagram queue (no send/reserve/blocking_send on "
     "Sender<Bytes>/Sender<Datagram> in penguin_mux; try_send present as positive control); (R4) parked writers "
     "are woken by every grant and close (S3/S3b); (R5) no unjustified Pending on the writer path (S2).")
+EXPLANATION_ADDED = '(R6) advertised window = local rwnd (=C03.R3/R4); (R7) credit-implies-push (=C03.R7); R1 requires the threshold to be a min that includes the local window.'
+EXPLANATION = EXPLANATION + " Added while testing against seeded changes: " + EXPLANATION_ADDED
 ASSUMPTIONS = ["tokio mpsc try_send never blocks", "fair scheduling of tasks (liveness itself is not decided)"]
 NOT_DECIDED = "liveness under fairness; isolation of a slow stream beyond the no-blocking rule"
 THOROUGH_CONFIGS = ["mux-nodefault", "mux-std-only", "mux-nohash"]
